@@ -14,6 +14,8 @@ B3 pre-exponential factors: A > 0; Reaction.get_A(use_q=False) = (kB T/h) exp(dS
    entropy term) times sigma**(1 - n_surf), sigma chosen by sden_operation, in every unit
    system; ratio test between two site densities.
 INV online invariant at PY_RETURN of the clamped getters: the value handed out is >= 0.
+B1u/B2u/B3u  the same dimensional values against SI-derived constants (vf.ref.units) at a coarse
+   tolerance: catches a wrong unit family without depending on pMuTT's own tables (C12's subject).
 """
 import copy
 import math
@@ -25,7 +27,7 @@ from vf.ref import poly
 from vf.ref import units as RU
 
 ID = 'C09'
-N = {'quick': 3000, 'thorough': 60000}
+N = {'quick': 2600, 'thorough': 60000}
 NT_RULE = ('three case kinds drawn per case index after a directed list: (clamp) C08 reactions of empirical species as '
            'ChemkinReaction / SurfaceReaction with 0-2 TS species, reaction enthalpy and TS offset either free or '
            'steered to -2..+2 eV / -1..+3 eV around the reactants; (bep) reactions of all three classes whose TS is a '
